@@ -110,6 +110,36 @@ theorem gradeAngle_range {a : Angle F} (ha : a.Inv) :
     Fin a.gradeAngle ∧ |val a.gradeAngle - ((a.blade % 4 : ℕ) * val (qp : F) + val a.rem)| ≤ 4 / 10 ^ 15 ∧
     0 ≤ val a.gradeAngle ∧ val a.gradeAngle < 4 * val (qp : F) := gradeAngle_spec ha
 
+/-- (S) **blade copy** reaches the other's grade — and its exact blade count when that is not smaller — leaving remainder value
+    and magnitude untouched, and never decreasing the blade count (forward only) -/
+theorem copyBlade_spec {g o : Geonum F} (hg : g.angle.Inv) (hgb : g.angle.blade < 2 ^ 49) (hob : o.angle.blade < 2 ^ 49) :
+    (g.copyBlade o).mag = g.mag ∧ val (g.copyBlade o).angle.rem = val g.angle.rem ∧
+    (g.copyBlade o).angle.grade = o.angle.grade ∧
+    (g.angle.blade ≤ o.angle.blade → (g.copyBlade o).angle.blade = o.angle.blade) ∧
+    g.angle.blade ≤ (g.copyBlade o).angle.blade := by
+  refine ⟨rfl, ?_⟩
+  set d : ℤ := (o.angle.blade : ℤ) - (g.angle.blade : ℤ) with hd
+  have hdb : |d| < 2 ^ 50 := by rw [abs_lt]; constructor <;> omega
+  have hang : (g.copyBlade o).angle = g.angle.geometricAdd (Angle.new (FloatLike.ofInt d : F) two) := rfl
+  by_cases h0 : 0 ≤ d
+  · have hn := new_nonnegInt_two (F := F) d h0 hdb
+    have hw := add_whole (z := Angle.new (FloatLike.ofInt d : F) two) hg (by rw [hn]; exact fin_zero) (by rw [hn]; exact val_zero)
+    rw [hn] at hw
+    have hbl : (g.copyBlade o).angle.blade = o.angle.blade := by
+      rw [hang, hn, hw.1]
+      have : (d.toNat : ℤ) = d := Int.toNat_of_nonneg h0
+      simp only; omega
+    refine ⟨by rw [hang, hn]; exact hw.2.2, by unfold grade; rw [hbl], fun _ => hbl, by rw [hbl]; omega⟩
+  · have hneg : d < 0 := by omega
+    obtain ⟨k, hn, hk, hk3, hk6, hkm⟩ := new_negInt_two (F := F) d hneg hdb
+    have hw := add_whole (z := Angle.new (FloatLike.ofInt d : F) two) hg (by rw [hn]; exact fin_zero) (by rw [hn]; exact val_zero)
+    rw [hn] at hw
+    have hbl : (g.copyBlade o).angle.blade = g.angle.blade + k := by rw [hang, hn, hw.1]
+    refine ⟨by rw [hang, hn]; exact hw.2.2, ?_, fun hle => by omega, by rw [hbl]; omega⟩
+    unfold grade; rw [hbl]
+    have : ((g.angle.blade + k : ℕ) : ℤ) % 4 = (o.angle.blade : ℤ) % 4 := by push_cast; omega
+    omega
+
 /-! ### histories over the fixed-step alphabet -/
 
 /-- the blade-step alphabet of `Geonum` -/
